@@ -59,9 +59,19 @@ CLAIMS = {
    text="QuaiToQi and QiToQuai return exactly quo(qiReward*amount, quaiReward) resp. quo(quaiReward*amount, qiReward) at the header, difficulty and exchange rate they are given, write nothing and return a fresh number (functional postconditions on the real functions); SMT lemmas (nonlinear): a round trip Quai->Qi->Quai or Qi->Quai->Qi at a fixed positive rate never yields more than the start, and truncation only reduces. EVM.create keeps no ETX queued by a failed creation (shared with C12; the ErrCodeStoreOutOfGas exit is a known finding).",
    note="Assumed: CalculateQuaiReward / CalculateQiReward are deterministic read-only non-zero functions of (header, difficulty[, rate]) (trusted: LogBig and the multi-algorithm adjustment are outside the subset). Not under contract: prime repricing loops in Slice.Append, ApplyCubicDiscount (big.Float), FindMinDenominations sum, refund on slippage in Process.",
    design="4 (C20)", technique="contract-based deductive verification: functional postconditions over big.Int models plus nonlinear SMT lemmas, z3/cvc5"),
+ "C14": dict(
+   text="Decoders hand out objects of their own: Transaction.ProtoDecode returns a fresh payload whose ExternalTx.Value is a fresh number (it is mutated in place later by setValue). Database keys: UtxoKey's byte layout (prefix | 32 hash bytes | big-endian index, 36 bytes) and ReverseUtxoKey's parse are proved on the real functions and an SMT lemma composes them to ReverseUtxoKey(UtxoKey(h,i)) = (h,i).",
+   note="Not under contract: distinctness of the transactions decoded by ReceiptForStorage.ProtoDecode (a quantified loop invariant proved it, but only one solver found the proof in 4-6 s and not on every run, so it is not claimed); field-by-field encode/decode equality for transactions, headers, work objects, receipts; RLP / JSON (reflection) and protobuf marshalling; hash stability. Assumed: binary.BigEndian models, proto getters. The QuaiTx branch of Transaction.ProtoDecode aliases common.Big0 for an empty value - benign today because QuaiTx has no in-place setValue (noted in DESIGN).",
+   design="4 (C14)", technique="contract-based deductive verification: freshness postconditions with allocation-counter reasoning, byte-layout postconditions + SMT lemma"),
+ "C19": dict(
+   text="Sequential contracts on the per-account list: txSortedMap.Put stores the transaction under its nonce, always drops the sorted cache and grows the map by one exactly for a new nonce; txSortedMap.Remove deletes exactly the nonce, reports presence and drops the cache when the content changed; txList.Add accepts a same-nonce replacement only if the new price is strictly higher and reaches old*(100+bump)/100, returns the replaced transaction, leaves the list untouched on refusal and raises costcap/gascap to cover an accepted transaction.",
+   note="The quantifier over interleavings is NOT decided: these are per-call contracts of code that the pool runs under pool.mu; locking discipline, deadlock freedom, index agreement between pending/queue/all/priced and nonce contiguity are not under contract. Assumed: transaction payloads are immutable (trusted TxData.nonce/gasPrice/gas/value interface contracts), container/heap only touches the index heap.",
+   design="4 (C19)", technique="contract-based deductive verification: functional postconditions over map models and big.Int models, VCs from go/ssa, z3/cvc5"),
 }
 
 NA = {
+ "C10": "the rollback is one 250-line function (HeaderChain.SetCurrentHeader) with nested loops over database batches; a contract that decides it needs a relational invariant (state after undo = state before apply) over key-string maps for every loop, which did not discharge; only UtxoKey/ReverseUtxoKey round trip (claimed under C14) touches it (DESIGN 4, C10)",
+ "C02": "value conservation needs the sum over all accounts as ghost state threaded through the interpreter loop and every opcode; the call-kind frame contracts (claimed under C12) and the transfer contract are the reachable part, the sum invariant itself is not discharged (DESIGN 4, C02)",
  "C11": "crash points quantify over prefixes of the DB write sequence plus a restart; no per-call contract (pre/post/invariant/lemma) expresses it (DESIGN 4, C11)",
  "C18": "needs an inductive representation invariant over a recursive interface-typed node graph plus hash injectivity; not within reach of a self-written VC generator (DESIGN 4, C18)",
 }
